@@ -47,6 +47,15 @@ def o_hist(t1, t2, b, w):
     return [sum(1 for r in t1 for t in t2 if 2 * c - b <= 2 * (t - r) < 2 * c + b) for c in o_centres(b, w)]
 
 
+def o_hist_bounds(t1, t2, b, w, nb):
+    """decimal lattices: a lag exactly on a bin edge may fall on either side; per bin (pairs strictly inside, pairs inside or on an edge),
+    for the nb bins the implementation reports"""
+    m = nb // 2
+    lo = [sum(1 for r in t1 for t in t2 if 2 * k * b - b < 2 * (t - r) < 2 * k * b + b) for k in range(-m, m + 1)]
+    hi = [sum(1 for r in t1 for t in t2 if 2 * k * b - b <= 2 * (t - r) <= 2 * k * b + b) for k in range(-m, m + 1)]
+    return lo, hi
+
+
 def o_auto(t, b, w):
     h = o_hist(t, t, b, w)
     h[len(h) // 2] = 0
@@ -184,7 +193,7 @@ def run_kernel(res, tier, rng, CG):
 
 # ----------------------------------------------------------------------------------------------
 # 2. public correlograms
-def check_frame(res, op, key, inp, df, labels, cen, exp_counts, scales, amb, model_counts=None):
+def check_frame(res, op, key, inp, df, labels, cen, exp_counts, scales, amb, model_counts=None, trains=None):
     """df: DataFrame; labels: expected column labels in order; exp_counts[label] = list of ints or None (all-NaN expected)
     or 'skip'; scales[label] = factor turning the reported value into a pair count"""
     got_idx = [C.to_ns(x) for x in df.index.values]
@@ -193,8 +202,10 @@ def check_frame(res, op, key, inp, df, labels, cen, exp_counts, scales, amb, mod
                                "impl": [str(c) for c in df.columns], "expected": [str(c) for c in labels]})
         return
     if got_idx != cen:
-        if amb:
+        mm = (len(got_idx) - 1) // 2
+        if amb and len(got_idx) % 2 == 1 and abs(len(got_idx) - len(cen)) == 2 and got_idx == [k * inp["binsize"] for k in range(-mm, mm + 1)]:
             res.float_ambiguous += 1
+            res.count("float_ambiguous:decimal (2w)//b floor division misses the exact quotient")
         else:
             res.violations.append({"key": dict(key, op=op, part="centres"), "what": "bin centres are not the multiples of binsize inside the window",
                                    "input": inp, "impl": got_idx, "expected": cen})
@@ -211,8 +222,15 @@ def check_frame(res, op, key, inp, df, labels, cen, exp_counts, scales, amb, mod
             continue
         got = recover(col, scales[lab])
         if got != e:
-            if amb:
+            within = False
+            if amb and trains is not None and lab in trains and all(isinstance(g, int) for g in got):
+                lo, hi = o_hist_bounds(trains[lab][0], trains[lab][1], inp["binsize"], inp["windowsize"], len(got))
+                if op == "compute_autocorrelogram":
+                    lo[len(lo) // 2] = hi[len(hi) // 2] = 0
+                within = all(a <= g <= c for a, g, c in zip(lo, got, hi))
+            if amb and within:
                 res.float_ambiguous += 1
+                res.count("float_ambiguous:decimal lag exactly on a bin edge")
             else:
                 res.violations.append({"key": dict(key, op=op, part="values"),
                                        "what": "correlogram is not (pair count per bin) / (n_ref * binsize) [/ rate of the target]",
@@ -271,7 +289,7 @@ def run_public_corr(res, tier, rng, nap):
         res.count("corr_norm=%s" % norm)
         supo = mk_ep(nap, lat_sup)
         grp = nap.TsGroup({k: nap.Ts(G.arr(m), time_support=supo) for k, m in zip(keys, mem)}, time_support=supo)
-        epo = mk_ep(nap, ep) if ep else None
+        epk = {"ep": mk_ep(nap, ep)} if ep else {}     # (an explicit ep=None is rejected by the input validator)
         eff = ep if ep else lat_sup
         rm = [restrict(m, eff) for m in mem]
         T = tot(eff) / 1e9
@@ -300,8 +318,8 @@ def run_public_corr(res, tier, rng, nap):
             scales[k] = len(m) * bsec * (r_ if norm else 1.0)
         amb = amb_nb or (dec and any(edge_hit(m, m, b, w) for m in rm))
         try:
-            df = nap.compute_autocorrelogram(grp, bq, wq, ep=epo, norm=norm, time_units=un)
-            check_frame(res, "compute_autocorrelogram", key, inp, df, keys, cen, expc, scales, amb, None if dec else mauto)
+            df = nap.compute_autocorrelogram(grp, bq, wq, norm=norm, time_units=un, **epk)
+            check_frame(res, "compute_autocorrelogram", key, inp, df, keys, cen, expc, scales, amb, None if dec else mauto, {k: (m, m) for k, m in zip(keys, rm)})
         except Exception as ex:
             res.violations.append({"key": dict(key, op="compute_autocorrelogram", part="exception"), "what": "raised " + type(ex).__name__ + ": " + str(ex)[:100], "input": inp})
         # --- crosscorrelogram (TsGroup)
@@ -328,8 +346,9 @@ def run_public_corr(res, tier, rng, nap):
                     res.count("corr_lag_on_bin_edge")
                     amb = amb or dec
         try:
-            df = nap.compute_crosscorrelogram(grp, bq, wq, ep=epo, norm=norm, time_units=un, reverse=reverse)
-            check_frame(res, "compute_crosscorrelogram", dict(key, reverse=reverse), inp, df, labels, cen, expc, scales, amb, None if dec else mcross)
+            df = nap.compute_crosscorrelogram(grp, bq, wq, norm=norm, time_units=un, reverse=reverse, **epk)
+            check_frame(res, "compute_crosscorrelogram", dict(key, reverse=reverse), inp, df, labels, cen, expc, scales, amb, None if dec else mcross,
+                        {(keys[a_], keys[c_]): (rm[a_], rm[c_]) for a_ in range(3) for c_ in range(3)})
         except Exception as ex:
             res.violations.append({"key": dict(key, op="compute_crosscorrelogram", part="exception"), "what": "raised " + type(ex).__name__ + ": " + str(ex)[:100], "input": inp})
         # --- crosscorrelogram (pair of groups): reference from the first group
@@ -350,8 +369,8 @@ def run_public_corr(res, tier, rng, nap):
                     scales[lab] = len(rm[0]) * bsec * (rate[jj] if norm else 1.0)
                     amb = amb or (dec and edge_hit(rm[0], rm[jj], b, w))
             try:
-                df = nap.compute_crosscorrelogram((g1, g2), bq, wq, ep=epo, norm=norm, time_units=un)
-                check_frame(res, "compute_crosscorrelogram(pair of groups)", key, inp, df, labels, cen, expc, scales, amb)
+                df = nap.compute_crosscorrelogram((g1, g2), bq, wq, norm=norm, time_units=un, **epk)
+                check_frame(res, "compute_crosscorrelogram(pair of groups)", key, inp, df, labels, cen, expc, scales, amb, None, {(keys[0], keys[c_]): (rm[0], rm[c_]) for c_ in (1, 2)})
             except Exception as ex:
                 res.violations.append({"key": dict(key, op="compute_crosscorrelogram(pair of groups)", part="exception"), "what": "raised " + type(ex).__name__ + ": " + str(ex)[:100], "input": inp})
         # --- eventcorrelogram: reference = the event, inside ep (default: the event's own time support)
@@ -374,26 +393,35 @@ def run_public_corr(res, tier, rng, nap):
                 scales[k] = len(rev) * bsec * ((len(m) / Te) if norm else 1.0)
                 amb = amb or (dec and edge_hit(rev, m, b, w))
         try:
-            df = nap.compute_eventcorrelogram(grp, evo, bq, wq, ep=epo, norm=norm, time_units=un)
-            check_frame(res, "compute_eventcorrelogram", key, dict(inp, event_support=ev_sup), df, keys, cen, expc, scales, amb)
+            df = nap.compute_eventcorrelogram(grp, evo, bq, wq, norm=norm, time_units=un, **epk)
+            check_frame(res, "compute_eventcorrelogram", key, dict(inp, event_support=ev_sup), df, keys, cen, expc, scales, amb, None, {k: (rev, m) for k, m in zip(keys, rme)})
         except Exception as ex:
             res.violations.append({"key": dict(key, op="compute_eventcorrelogram", part="exception"), "what": "raised " + type(ex).__name__ + ": " + str(ex)[:100], "input": inp})
         res.case(("c", cn, kind, b, w, norm, reverse, un, str(ep), str(mem), str(ev)), nontrivial=any_pairs)
         if cn % 301 == 0:
             res.sample({"op": "correlograms", "members": mem, "event": ev, "binsize": b, "windowsize": w, "ep": ep, "norm": norm, "reverse": reverse, "units": un})
-    # --- probe: autocorrelogram row labels are rounded to 1e-6 s (bins that are not whole microseconds)
+    # --- probe: autocorrelogram row labels are np.round(centres, 6) (bins that are not whole microseconds; below 1 us the
+    #     labels of the neighbouring bins collapse onto 0 and `autocorrs.loc[0] = 0` wipes them as well)
     supo = mk_ep(nap, sup)
-    for b, w in ((U, 2 * U), (3 * U, 3 * U)):
-        m = [0, U, 3 * U, 6 * U]
+    for b, w, m in ((U, 2 * U, [0, U, 3 * U, 6 * U]), (3 * U, 3 * U, [0, U, 3 * U, 6 * U]), (400, 800, [0, 400, 800, 1200, 5000])):
         grp = nap.TsGroup({0: nap.Ts(G.arr(m), time_support=supo)}, time_support=supo)
         df = nap.compute_autocorrelogram(grp, b / 1e9, w / 1e9, norm=False)
         got = [C.to_ns(x) for x in df.index.values]
+        gotc = recover(df[0].values, len(m) * b / 1e9)
         res.evaluations += 1
         res.count("autocorr_submicrosecond_label_probe")
-        if got != o_centres(b, w):
+        if got != o_centres(b, w) or gotc != o_auto(m, b, w):
             res.violations.append({"key": {"op": "compute_autocorrelogram", "part": "index_rounded_to_us"},
-                                   "what": "autocorrelogram row labels are np.round(centres, 6): not the multiples of binsize when binsize is not a whole number of microseconds",
-                                   "input": {"t": m, "binsize": b, "windowsize": w}, "impl": got, "expected": o_centres(b, w)})
+                                   "what": "autocorrelogram row labels are np.round(centres, 6): not the multiples of binsize when binsize is not a whole number of microseconds"
+                                           " (below 1 us several rows get the label 0 and are all zeroed)",
+                                   "input": {"t": m, "binsize": b, "windowsize": w}, "impl": [got, gotc], "expected": [o_centres(b, w), o_auto(m, b, w)]})
+    # --- probe (float gap, recorded not judged): decimal (2w)//b computed in floating point, e.g. (2*0.3)//0.1 = 5.0
+    grp = nap.TsGroup({0: nap.Ts(np.array([0.0, 0.1, 0.2, 0.35]), time_support=supo), 1: nap.Ts(np.array([0.003, 0.1025, 0.2]), time_support=supo)}, time_support=nap.IntervalSet(-1.0, 1.0))
+    nrows = len(nap.compute_crosscorrelogram(grp, 0.1, 0.3, norm=False).index)
+    res.evaluations += 1
+    res.count("decimal_floor_division_probe(binsize=0.1s,windowsize=0.3s): rows=%d, exact=7" % nrows)
+    if nrows != 7:
+        res.float_ambiguous += 1
 
 
 # ----------------------------------------------------------------------------------------------
@@ -463,14 +491,19 @@ def run_perievent(res, tier, rng, nap):
         for i, k in enumerate(pe.keys()):
             m = pe[k]
             lag = [C.to_ns(v) for v in m.t]
-            val = [100 + ts.index(l + rt[i]) if False else None for l in lag] if as_ts else [int(v) for v in m.values]
+            val = [None] * len(lag) if as_ts else [int(v) for v in m.values]
             got.append((rt[i], list(zip(lag, val))))
         e2 = [(r, [(l, None if as_ts else v) for l, v in ll]) for r, ll in exp]
         if list(pe.keys()) != list(range(len(tr))):
             res.violations.append({"key": dict(key, part="keys"), "what": "group members are not numbered in reference order", "input": inp, "impl": [int(k) for k in pe.keys()]})
         elif got != e2:
-            if amb:
+            closed = [(r, [(t - r, None if as_ts else v) for t, v in zip(ts, vs) if r - w0 <= t <= r + w1]) for r in tr]
+            strict = [(r, [(t - r, None if as_ts else v) for t, v in zip(ts, vs) if r - w0 < t < r + w1]) for r in tr]
+            within = len(got) == len(tr) and all(g[0] == c[0] and all(x in g[1] for x in s_[1]) and g[1] == [x for x in c[1] if x in g[1]] and all(x in c[1] for x in g[1])
+                                                 for g, c, s_ in zip(got, closed, strict))
+            if amb and within:
                 res.float_ambiguous += 1
+                res.count("float_ambiguous:decimal sample exactly on a peri-event window edge")
             else:
                 res.violations.append({"key": dict(key, part="lags"), "what": "member i is not the lags t - r_i (with values) of the samples with r_i - w0 <= t < r_i + w1, tagged r_i",
                                        "input": inp, "impl": got, "expected": e2})
@@ -502,6 +535,25 @@ def run_perievent(res, tier, rng, nap):
                                        "input": {"member": m, "tref": tr, "minmax": [w0, w1]}, "impl": got, "expected": exp})
 
 
+    # TsdFrame / TsdTensor input (accepted by the input validator and the docstring)
+    for nm, mk in (("TsdFrame", lambda: nap.TsdFrame(G.arr([0, step, 2 * step]), np.arange(6.0).reshape(3, 2), time_support=big)),
+                   ("TsdTensor", lambda: nap.TsdTensor(G.arr([0, step, 2 * step]), np.arange(12.0).reshape(3, 2, 2), time_support=big))):
+        res.evaluations += 1
+        res.count("perievent_%s_input_probe" % nm)
+        try:
+            pe = nap.compute_perievent(mk(), nap.Ts(G.arr([step, 2 * step]), time_support=big), step / 1e9)
+            got = [[C.to_ns(v) for v in pe[i].t] for i in range(2)]
+            rows = [np.asarray(pe[i].values).tolist() for i in range(2)]
+            exp = [[-step, 0], [-step, 0]]
+            if got != exp or rows[0][0] != np.asarray(mk().values)[0].tolist():
+                res.violations.append({"key": {"op": "compute_perievent", "input": nm, "part": "lags"}, "what": nm + " input: lags/rows differ", "impl": [got, rows], "expected": exp,
+                                       "input": {"ts": [0, step, 2 * step], "tref": [step, 2 * step], "minmax": [step, step]}})
+        except Exception as ex:
+            res.violations.append({"key": {"op": "compute_perievent", "input": nm, "part": "exception"},
+                                   "what": "compute_perievent(%s, ...) raised %s: %s (the validator and the docstring accept it; _align_tsd builds a 1-d Tsd from the rows)" % (nm, type(ex).__name__, str(ex)[:80]),
+                                   "input": {"ts": [0, step, 2 * step], "tref": [step, 2 * step], "minmax": [step, step], "container": nm}})
+
+
 # ----------------------------------------------------------------------------------------------
 # 4. compute_perievent_continuous
 def parse_cols(s):
@@ -517,7 +569,7 @@ def cont_cases(tier, rng):
     for n in (2, 3, 5, 7):
         ts = [i * step for i in range(n)]
         grid = [i * U for i in range(0, 2 * n - 1)]
-        eps = [None] + [e for e in G.canonical_isets(grid[::2] + [grid[-1] + U], 2) if e]
+        eps = [None] + [e for e in G.canonical_isets(grid + [grid[-1] + U], 2) if e]
         if len(eps) > 30:
             eps = [None] + rng.sample(eps[1:], 29)
         trefs = [t for t in G.sorted_multisets(grid, 2) if t]
@@ -604,7 +656,7 @@ def run_continuous(res, tier, rng, nap, PF):
         if not (mpub[0] == offs and len(mpub[1]) == len(ocols) and all(c in acc for c, acc in zip(mpub[1], ocols))):
             res.disagreements.append({"op": "perievent_continuous(model vs statement)", "input": inp, "model": mpub, "expected": [offs, ocols]})
         try:
-            pc = nap.compute_perievent_continuous(x, tref, (w0 / uf, w1 / uf), ep=mk_ep(nap, ep) if ep else None, time_unit=un)
+            pc = nap.compute_perievent_continuous(x, tref, (w0 / uf, w1 / uf), time_unit=un, **({"ep": mk_ep(nap, ep)} if ep else {}))
         except Exception as ex:
             res.violations.append({"key": dict(key, part="exception"), "what": "raised " + type(ex).__name__ + ": " + str(ex)[:100], "input": inp})
             continue
@@ -693,7 +745,7 @@ def replay(payload):
         x = nap.Tsd(G.arr(ts), np.asarray(vs, dtype=float), time_support=nap.IntervalSet(min(0, ts[0]) / 1e9 - 1.0, ts[-1] / 1e9 + 1.0) if ep else None)
         offs, ocols = o_continuous(ts, vs, tr, eff, w0, w1)
         try:
-            pc = nap.compute_perievent_continuous(x, nap.Ts(G.arr(tr), time_support=nap.IntervalSet(-1.0, 5.0)), (w0 / 1e9, w1 / 1e9), ep=mk_ep(nap, eff) if ep else None)
+            pc = nap.compute_perievent_continuous(x, nap.Ts(G.arr(tr), time_support=nap.IntervalSet(-1.0, 5.0)), (w0 / 1e9, w1 / 1e9), **({"ep": mk_ep(nap, eff)} if ep else {}))
         except Exception as ex:
             print("impl raised", type(ex).__name__, ex)
             return 1
